@@ -268,3 +268,15 @@ theorem bds_affine_dimension_geom :
 
 end
 end PPLV.WR
+
+namespace PPLV.WR
+
+/-- at most `n` leaders among `1..n` -/
+theorem leaderCount_le (n : Nat) (lead : Nat → Nat) : leaderCount n lead ≤ n := by
+  unfold leaderCount
+  rw [List.range_succ_eq_map, List.filter_cons]
+  simp only [bne_self_eq_false, Bool.false_and, Bool.false_eq_true, if_false]
+  refine le_trans (List.length_filter_le _ _) ?_
+  simp
+
+end PPLV.WR
